@@ -113,6 +113,7 @@ def h_rt(cfg):
                 state['real_start'] = clock.readings[-1]
                 cover('sync')
             n0 = len(clock.readings)
+            clock_at_entry = clock.t
             evt = rt.peek()
             clock.sleeps_this_step = 0
             try:
@@ -126,11 +127,10 @@ def h_rt(cfg):
             except Exception as ex:  # noqa
                 fail('no-raise', '%s: %s' % (type(ex).__name__, ex))
                 return
-            check('c20.clock-read-in-step', len(clock.readings) > n0)
-            if len(clock.readings) <= n0:
-                return
             due = state['real_start'] + (evt - t0) * factor
-            first = clock.readings[n0]
+            # "on turning to the next occurrence": the first clock reading step() takes; an implementation that
+            # takes none is judged against the wall clock as it stood when step() was entered
+            first = clock.readings[n0] if len(clock.readings) > n0 else clock_at_entry
             too_slow = gt(first - due, factor)
             if raised:
                 check('c20.strict-raise-iff-too-slow', And(strict, too_slow), step)
